@@ -17,6 +17,7 @@ pub mod c01;
 pub mod c02;
 pub mod c03;
 pub mod c04;
+pub mod c04_span;
 pub mod c11;
 pub mod c11_more;
 pub mod c17;
